@@ -1,9 +1,13 @@
-//! Linearizability checker (Wing–Gong search with memoisation) against the sequential
-//! specification of one observable and its subscribers (DESIGN.md §4.4).
+// Linearizability checker (Wing-Gong search with memoisation) against the sequential
+// specification of one observable and its subscribers (DESIGN.md §4.4). Shared with TaskSim by include!.
 
-use crate::program::upd;
 use serde::{Deserialize, Serialize};
 use std::collections::HashSet;
+
+/// The value an `update(t)` closure computes from `v`: any lost or reordered update changes it.
+pub fn upd(v: u64, t: u64) -> u64 {
+    (v.wrapping_mul(31).wrapping_add(t)) % 1_000_003
+}
 
 #[derive(Clone, Debug, PartialEq, Eq, Serialize, Deserialize)]
 pub enum PollR {
